@@ -95,7 +95,7 @@ def run(rep, tier, seed, replay):
     io = [io[i] if i < len(io) else "MISSING" for i in range(len(cases))]
     mo = ltv.run_sharded(model, [x if x.startswith("ev=") else "NOTRACE-INPUT" for x in io])
     nontrivial, mism, samples = set(), 0, []
-    nev = nreq = ncancel = ncomplete = nacc = namb = 0
+    nev = nreq = ncancel = ncomplete = nacc = namb = nre_choke = nre_disc = 0
     evk = {}
     for i, case in enumerate(cases):
         o = io[i]
@@ -111,6 +111,9 @@ def run(rep, tier, seed, replay):
             ncancel += sum(1 for e in ev if e[0] == "C")
             if done == "1":
                 ncomplete += 1
+            a, b = G.count_reissues(o)
+            nre_choke += a
+            nre_disc += b
             if r > 0:
                 nontrivial.add(hashlib.sha1(case.encode()).digest())
         if len(samples) < 5 and i % 53 == 7:
@@ -140,7 +143,8 @@ def run(rep, tier, seed, replay):
             theorem="coq/C04/Properties.v", found_input=False)
     stats = dict(stats)
     stats.update(events=evk, requests_seen=nreq, cancels_seen=ncancel, completion_phases_done=ncomplete,
-                 traces_accepted=nacc, ambiguous_timer_cases_skipped=namb)
+                 traces_accepted=nacc, ambiguous_timer_cases_skipped=namb,
+                 blocks_reissued_elsewhere_after_choke_timer=nre_choke, blocks_reissued_elsewhere_after_disconnect=nre_disc)
     rep.cov.update(evaluations=len(cases), distinct_nontrivial=len(nontrivial),
                    rule="cases = corpus + hand list + random swarms (1-4 peers, 8 layouts) with long and short time steps; "
                         "non-trivial = distinct case in which the implementation sent at least one REQUEST",
